@@ -93,7 +93,7 @@ func isGlobalLoad(v ssa.Value, pkgPath, name string) bool {
 }
 
 func checkC16(c *Ctx) {
-	c.Explanation = "Decides the structure that makes rtcmlogger a lossless tee: (R1) in the copy loop every successful read of n>0 bytes from standard input is followed, before the next read and on every path, by exactly one write of readBuffer[:n] (same buffer, same n) to standard output and then exactly one send to the recorder; the only edges that bypass them are end-of-file and n==0; (R2) what is sent to the recorder is a fresh buffer of length n filled by copy from readBuffer[:n], so the recorder never aliases the buffer that the next read overwrites; (R3) the recorder writes every block it receives, unmodified, before its next receive and leaves its loop only when the channel is closed; (R4) start closes the recorder channel and waits for the recorder goroutine before returning, on every path (join rule of C11). R1 also requires that every return of the copy loop is reached over an err == io.EOF edge on every path. (R6) the copy loop, the recorder, start and the module functions they call outside the logger package are free of index, slice, bit-read, division, shift, assertion and make panics (the arithmetic obligations of C07, discharged by linear entailment). (R7) nothing reachable from start closes standard input or output, or wraps a descriptor in a second os.File (os.NewFile: the new object's finalizer closes the descriptor at the next garbage collection), or calls syscall.Close/Dup2."
+	c.Explanation = "Decides the structure that makes rtcmlogger a lossless tee: (R1) in the copy loop every successful read of n>0 bytes from standard input is followed, before the next read and on every path, by exactly one write of readBuffer[:n] (same buffer, same n) to standard output and then exactly one send to the recorder; the only edges that bypass them are end-of-file and n==0; (R2) what is sent to the recorder is a fresh buffer of length n filled by copy from readBuffer[:n], so the recorder never aliases the buffer that the next read overwrites; (R3) the recorder writes every block it receives, unmodified, before its next receive and leaves its loop only when the channel is closed; (R4) start closes the recorder channel and waits for the recorder goroutine before returning, on every path (join rule of C11). R1 also requires that every return of the copy loop is reached over an err == io.EOF edge on every path. (R6) the copy loop, the recorder, start and the module functions they call outside the logger package are free of index, slice, bit-read, division, shift, assertion and make panics (the arithmetic obligations of C07, discharged by linear entailment). (R7) nothing reachable from start closes standard input or output, or wraps a descriptor in a second os.File (os.NewFile: the new object's finalizer closes the descriptor at the next garbage collection), or calls syscall.Close/Dup2. (R8) the record writer is created for the configured message directory with a file-name pattern that no writer for another directory shares (two daily writers with one pattern and equal directories append to one file), and the configured directory is replaced by a default only when it is empty."
 	c.NotDecided = "dailylogger's own file handling and midnight gating (dependency); what os.File.Read/Write do; partial writes to stdout (ignored by design); a read that returns n>0 together with io.EOF (os.File never does)."
 	c.Assumptions = append(c.Assumptions, "os.File.Read returns (0, io.EOF) at end of file, never n>0 together with io.EOF", "io.Reader contract: n, err := r.Read(p) gives 0 <= n <= len(p)")
 	P := c.P
@@ -433,6 +433,8 @@ func checkC16(c *Ctx) {
 	})
 	// ---- R7 the standard descriptors stay as the runtime opened them
 	ruleStdDescriptorsLeftAlone(c, "C16-R7", []*ssa.Function{start})
+	// ---- R8 the record goes to the configured directory under a name of its own
+	ruleRecordDestination(c, "C16-R8", pkg)
 	c.MinInstances("C16-R5", 1)
 	c.MinInstances("C16-R1", 8)
 	c.MinInstances("C16-R2", 1)
@@ -634,5 +636,94 @@ func ruleStdDescriptorsLeftAlone(c *Ctx, rule string, roots []*ssa.Function) {
 		c.Fail(rule, "std-descriptors", token.NoPos, "unresolved", "no functions reachable from start")
 	} else if bad == 0 {
 		c.OK(rule, "std-descriptors", roots[0].Pos(), fmt.Sprintf("no os.NewFile, syscall.Close/Dup2/Dup3 or Close of a standard stream in the %d module functions reachable from start", n))
+	}
+}
+
+// ruleRecordDestination (C16-R8): "the day's record file in the configured directory contains the same bytes".
+//   - every dailylogger.New in the program has constant leader and trailer; two writers made for different
+//     directory settings never share a (leader, trailer) pair — with equal directories they would write one file;
+//   - the configured record directory is overwritten only under the test that it is empty.
+func ruleRecordDestination(c *Ctx, rule, pkg string) {
+	P := c.P
+	type site struct {
+		dir  string
+		pat  string
+		call *ssa.Call
+	}
+	var sites []site
+	for _, fn := range P.FuncsIn(pkg) {
+		eachInstr(fn, func(ins ssa.Instruction) {
+			call, ok := ins.(*ssa.Call)
+			if !ok || len(call.Call.Args) != 3 {
+				return
+			}
+			f := call.Call.StaticCallee()
+			if f == nil || f.Name() != "New" || f.Pkg == nil || !strings.HasSuffix(f.Pkg.Pkg.Path(), "go-tools/dailylogger") {
+				return
+			}
+			lead, ok1 := constString(call.Call.Args[1])
+			trail, ok2 := constString(call.Call.Args[2])
+			dir := "?"
+			if fv, _ := loadedField(call.Call.Args[0]); fv != nil {
+				dir = fv.Name()
+			}
+			if !ok1 || !ok2 {
+				c.Fail(rule, "record-name("+P.FnKey(fn)+")", call.Pos(), "unproven", "a daily writer is created with a file-name pattern that is not constant")
+				return
+			}
+			sites = append(sites, site{dir, lead + "*" + trail, call})
+		})
+	}
+	nRec := 0
+	for _, a := range sites {
+		if a.dir != "MessageLogDirectory" {
+			continue
+		}
+		nRec++
+		clash := ""
+		for _, b := range sites {
+			if b.dir != a.dir && b.pat == a.pat {
+				clash = b.dir
+			}
+		}
+		c.Check(clash == "", rule, "record-name", a.call.Pos(), "the record's file-name pattern "+a.pat+" is used for no other directory setting",
+			"the record writer uses the file-name pattern "+a.pat+" that the writer for "+clash+" uses too: when the two directories are the same both append to one file and the record is not a copy of the input")
+	}
+	if nRec == 0 {
+		c.Fail(rule, "record-name", token.NoPos, "unresolved", "no daily writer created for the configured message directory")
+	}
+	// the configured directory is replaced only when empty
+	for _, fn := range P.FuncsIn(pkg) {
+		eachInstr(fn, func(ins ssa.Instruction) {
+			st, ok := ins.(*ssa.Store)
+			if !ok {
+				return
+			}
+			fv, _ := fieldOf(st.Addr)
+			if fv == nil || fv.Name() != "MessageLogDirectory" {
+				return
+			}
+			empty := onEveryPath(st.Block(), func(f EdgeFact) bool {
+				bo, ok := f.Cond.(*ssa.BinOp)
+				if !ok || !((bo.Op == token.EQL && f.Val) || (bo.Op == token.NEQ && !f.Val)) {
+					return false
+				}
+				// len(dir) == 0
+				if ln, ok := bo.X.(*ssa.Call); ok {
+					if b, ok := ln.Call.Value.(*ssa.Builtin); ok && b.Name() == "len" && isZero(bo.Y) {
+						f2, _ := loadedField(ln.Call.Args[0])
+						return f2 == fv
+					}
+				}
+				// dir == ""
+				if s2, ok := constString(bo.Y); ok && s2 == "" {
+					f2, _ := loadedField(bo.X)
+					return f2 == fv
+				}
+				return false
+			})
+			c.Check(empty, rule, "record-directory("+P.FnKey(fn)+")", st.Pos(), "the configured record directory is given a default only when it is empty",
+				"the configured record directory is replaced although it is not empty: the record does not appear in the configured directory")
+		})
 	}
 }
